@@ -349,8 +349,16 @@ func (w *worker) runTuple(t tuple, exhaustiveBits bool) {
 	if !expectAccept(append(append([]byte(nil), cut...), core.RandBytes(r, 1+r.IntN(300))...), "appendix-replaced") {
 		return
 	}
-	if !expectAccept(append(append([]byte(nil), sealed...), core.RandBytes(r, 1+r.IntN(200))...), "appendix-extended") {
-		return
+	// (an appendix may grow up to the protocol's own limit of 10000 bytes; beyond it a receiver may refuse the
+	// frame as malformed - nothing is demanded either way there)
+	if grow := 1 + r.IntN(200); t.apx+grow <= 10000 {
+		if !expectAccept(append(append([]byte(nil), sealed...), core.RandBytes(r, grow)...), "appendix-extended") {
+			return
+		}
+	} else if room := 10000 - t.apx; room > 0 {
+		if !expectAccept(append(append([]byte(nil), sealed...), core.RandBytes(r, room)...), "appendix-extended") {
+			return
+		}
 	}
 	if t.apx > 1 {
 		if !expectAccept(append([]byte(nil), sealed[:l.apxIndex()+r.IntN(t.apx)]...), "appendix-truncated") {
